@@ -169,8 +169,7 @@ func (w *websocket) send(packets []*packet.Packet) {
 					}
 					return
 				}
-				return
-
+				continue
 			}
 		}
 
